@@ -426,6 +426,35 @@ fn name_alphabet(thorough: bool) -> Vec<Vec<u8>> {
     v
 }
 
+/// Names around the format's 128 token positions per name (name type + 126 tokens + end marker):
+/// n alternating alphanumeric / non-alphanumeric tokens, n in {125,126,127,128,129,200}, as single
+/// letters, single digits and a mix with varied separators; plus one short name so that the lists of
+/// <= 2 names give each long name alone, after / before a short name, duplicated, and next to another.
+fn long_name_alphabet() -> Vec<Vec<u8>> {
+    let mut v = vec![b"a:1".to_vec()];
+    for n in [125usize, 126, 127, 128, 129, 200] {
+        for style in 0..3 {
+            let mut name = Vec::new();
+            for t in 0..n {
+                let f = t / 2;
+                name.push(if t % 2 == 0 {
+                    match style {
+                        0 => b'a' + (f % 26) as u8,
+                        1 => b'1' + (f % 9) as u8,
+                        _ => if f % 2 == 0 { b'a' + (f % 26) as u8 } else { b'0' + (f % 10) as u8 },
+                    }
+                } else if style == 2 {
+                    [b':', b'_', b'/', b'.'][f % 4]
+                } else {
+                    b':'
+                });
+            }
+            v.push(name);
+        }
+    }
+    v
+}
+
 fn names_harness(ctx: &mut Ctx, name: &str, alpha: &[Vec<u8>], max_names: usize) {
     if skip(name) {
         return;
@@ -685,6 +714,7 @@ fn main() {
         // (shorter ones are stored raw), so the quick tier goes to 4 names as well
         let alpha = name_alphabet(false);
         names_harness(ctx, "names", &alpha, ctx.by_tier(4, 5));
+        names_harness(ctx, "names_long", &long_name_alphabet(), ctx.by_tier(2, 3));
         if !quick {
             names_harness(ctx, "names_ext", &name_alphabet(true), 4);
         }
